@@ -4,7 +4,12 @@ Relation
   ld : haptools.ld.calc_ld, called directly or through the `haptools ld` command, on generated biallelic phased
        matrices (VCF.gz+tbi or PGEN, optionally read in chunks), .hap sets with repeats (plain, or sorted + bgzipped +
        indexed by haptools index), every kind of target, the four {from_gts, ids} modes, sample subsets; plus a second run with
-       the target swapped with one listed item (symmetry, and agreement of the .hap and .ld output modes).
+       the target swapped with EVERY listed item in turn (symmetry, and agreement of the .hap and .ld output modes).
+       The V lines of a haplotype are written in any order relative to the genotype records (file order, reversed,
+       shuffled; grouped per haplotype, each H line followed by its V lines, interleaved with the V lines of the other
+       haplotypes, or all V lines before the H lines), haplotypes mix REF and ALT alleles, variant IDs are not in
+       file order, PGEN records are not in position order and VCF records share positions; families of cases use
+       every haplotype of one data set as the target in turn.
        A malformed stream (absent target, allele not in the variant, missing / multiallelic / unphased call)
        is compared with the model's exception kinds only.
 """
@@ -20,13 +25,14 @@ from .core import Relation, err_kind
 
 PROP = "C16"
 CLAIMED = True
-COQ_MODULES = ["PearsonQ", "C16_Model", "C16_Check", "C16_Proofs"]
+COQ_MODULES = ["PearsonQ", "C16_Model", "C16_Check", "C16_Proofs", "C16_ProofsPerm"]
 PROPERTY_MODULE = "C16_Property"
 ALLOWED_AXIOMS = []
 RULE = (
     "ld: 2-12 samples x 2-8 biallelic phased variants (constant, duplicated and complemented columns included), "
-    "1-5 haplotypes of 1-3 alleles + 0-2 repeats, target any haplotype or variant, from_gts x ids x sample subset x "
-    "VCF/PGEN. Non-trivial = a well-formed case that lists at least one item whose R is neither nan nor +-1.000. "
+    "1-5 haplotypes of 1-4 alleles (V lines in any order and layout, REF and ALT mixed) + 0-2 repeats, target any "
+    "haplotype or variant (every haplotype in turn in the family stream), from_gts x ids x sample subset x "
+    "VCF/PGEN, plus one swapped run per listed item. Non-trivial = a well-formed case that lists at least one item whose R is neither nan nor +-1.000. "
     "Distinct = distinct canonical JSON."
 )
 TRUSTED = [
@@ -37,6 +43,7 @@ TRUSTED = [
 ]
 ASSUMPTIONS = [
     "theorems about the listing assume distinct haplotype / variant IDs and a .hap set whose alleles exist in the genotypes",
+    "the strand-count characterisation of a haplotype's dosage assumes a rectangular matrix (one call per sample in every record)",
 ]
 
 ALLELES = "ACGT"
@@ -118,22 +125,67 @@ def _rand_calls(rng, n, p):
     return cols
 
 
+def _file_rank(case):
+    return {v["id"]: j for j, v in enumerate(case["variants"])}
+
+
+def vline_order(case, ln):
+    """how the V lines of haplotype `ln` are ordered relative to the records of the genotype file"""
+    rk = _file_rank(case)
+    r = [rk.get(x[0], -1) for x in ln["vars"]]
+    if len(r) < 2:
+        return "single"
+    if r == sorted(r):
+        return "file-order"
+    if r == sorted(r, reverse=True):
+        return "reversed"
+    return "shuffled"
+
+
+def mixes_alleles(case, ln):
+    ref = {v["id"]: v["ref"] for v in case["variants"]}
+    kinds = {x[1] == ref.get(x[0]) for x in ln["vars"]}
+    return len(kinds) == 2
+
+
 def gen_case(rng):
     n = int(rng.integers(2, 13))
     p = int(rng.integers(2, 9))
     cols = _rand_calls(rng, n, p)
+    fmt = "pgen" if rng.random() < 0.3 else "vcf"
     pos = sorted(rng.choice(np.arange(1, 400), size=p, replace=False).tolist())
+    posorder = "sorted"
+    if rng.random() < 0.25:
+        # records sharing a position (legal in both formats; no order among them is implied)
+        j = int(rng.integers(0, p - 1))
+        pos[j + 1] = pos[j]
+        posorder = "ties"
+    if fmt == "pgen" and rng.random() < 0.5:
+        # a .pvar need not be in position order
+        pos = [int(x) for x in rng.permutation(pos).tolist()]
+        posorder = "unsorted"
+    # variant names: not in file order half of the time (ID order != file order != position order)
+    names = [f"v{j}" for j in (rng.permutation(p).tolist() if rng.random() < 0.5 else range(p))]
     variants = []
     for j in range(p):
         ref, alt = rng.choice(list(ALLELES), size=2, replace=False).tolist()
-        variants.append({"id": f"v{j}", "pos": int(pos[j]) * 10, "ref": ref, "alt": alt, "calls": cols[j], "unph": []})
+        variants.append({"id": names[j], "pos": int(pos[j]) * 10, "ref": ref, "alt": alt, "calls": cols[j], "unph": []})
     nh = int(rng.integers(1, 6))
     lines = []
     for h in range(nh):
-        k = int(rng.integers(1, min(3, p) + 1))
-        vs = sorted(rng.choice(p, size=k, replace=False).tolist())
-        lines.append({"t": "H", "id": f"h{h}",
-                      "vars": [[variants[j]["id"], variants[j]["alt" if rng.random() < 0.7 else "ref"]] for j in vs]})
+        k = int(rng.integers(1, min(4, p) + 1))
+        vs = rng.choice(p, size=k, replace=False).tolist()   # in arbitrary order
+        o = rng.random()
+        if o < 0.3:
+            vs.sort()                                        # the order of the genotype file
+        elif o < 0.5:
+            vs.sort(reverse=True)
+        which = ["alt" if rng.random() < 0.7 else "ref" for _ in vs]
+        if k >= 2 and rng.random() < 0.5:
+            # REF and ALT mixed within the haplotype
+            a, b = rng.choice(k, size=2, replace=False).tolist()
+            which[a], which[b] = "ref", "alt"
+        lines.append({"t": "H", "id": f"h{h}", "vars": [[variants[j]["id"], variants[j][w]] for j, w in zip(vs, which)]})
     for r in range(int(rng.choice([0, 0, 1, 2]))):
         lines.insert(int(rng.integers(0, len(lines) + 1)), {"t": "R", "id": f"r{r}"})
     hap_ids = [l["id"] for l in lines if l["t"] == "H"]
@@ -152,11 +204,12 @@ def gen_case(rng):
         keep = [bool(rng.random() < 0.7) for _ in range(n)]
         if sum(keep) == 0:
             keep[int(rng.integers(0, n))] = True
-    fmt = "pgen" if rng.random() < 0.3 else "vcf"
     case = {"n": n, "variants": variants, "lines": lines, "keep": keep, "target": target, "ids": ids,
-            "from_gts": from_gts, "fmt": fmt, "swap": int(rng.integers(0, 16)), "kind": "wellformed",
+            "from_gts": from_gts, "fmt": fmt, "kind": "wellformed",
             "via": "cli" if rng.random() < 0.25 else "api", "hapfmt": "gz" if rng.random() < 0.2 else "plain",
-            "chunk": int(rng.integers(1, 4)) if (fmt == "pgen" and rng.random() < 0.5) else None}
+            "chunk": int(rng.integers(1, 4)) if (fmt == "pgen" and rng.random() < 0.5) else None,
+            "layout": str(rng.choice(["grouped", "hv", "interleaved", "vfirst"])), "vseed": int(rng.integers(0, 2**31)),
+            "posorder": posorder}
     r = rng.random()
     if r > 0.93 and ids:
         # the same --id given twice: still listed once
@@ -183,8 +236,22 @@ def gen_case(rng):
             v["calls"][s] = [0, 1]
             v["unph"] = [s]
         case["fmt"] = "vcf"
+        case["chunk"] = None
+        if posorder == "unsorted":   # a bgzipped + tabix-indexed VCF has to be in position order
+            for v_, q in zip(variants, sorted(v_["pos"] for v_ in variants)):
+                v_["pos"] = q
+            case["posorder"] = "sorted"
         case["kind"] = "bad-call-" + what
     return case
+
+
+def target_family(case):
+    """the same data with every haplotype as the target in turn, .hap and .ld output"""
+    haps = [l["id"] for l in case["lines"] if l["t"] == "H"]
+    for t in haps:
+        for fg in (False, True):
+            # the --id list of the base case names haplotypes (.hap mode) or variants (--from-gts)
+            yield dict(case, target=t, from_gts=fg, ids=case["ids"] if fg == case["from_gts"] else None, kind="family")
 
 
 def _files(case, d):
@@ -199,19 +266,42 @@ def _files(case, d):
         gt = write_vcf(os.path.join(d, "g.vcf"), samples, recs)
     posof = {v["id"]: v["pos"] for v in vs}
     hp = os.path.join(d, "h.hap")
+
+    def hline(ln):
+        if ln["t"] == "H":
+            ps = [posof.get(x[0], 1) for x in ln["vars"]] or [1]
+            return f"H\t1\t{min(ps)}\t{max(ps) + 1}\t{ln['id']}\n"
+        return f"R\t1\t5\t9\t{ln['id']}\n"
+
+    def vlines(ln):
+        out = []
+        for vid, al in (ln["vars"] if ln["t"] == "H" else []):
+            q = posof.get(vid, 1)
+            out.append(f"V\t{ln['id']}\t{q}\t{q + 1}\t{vid}\t{al}\n")
+        return out
+
+    layout = case.get("layout", "grouped")
+    grouped = [x for ln in case["lines"] for x in vlines(ln)]
+    if layout in ("interleaved", "vfirst"):
+        # a random merge: every haplotype keeps the order of its own V lines
+        import random
+
+        queues = [vlines(ln) for ln in case["lines"]]
+        turns = [k for k, q in enumerate(queues) for _ in q]
+        random.Random(case.get("vseed", 0)).shuffle(turns)
+        merged = [queues[k].pop(0) for k in turns]
     with open(hp, "w") as f:
         f.write("#\tversion\t0.2.0\n")
-        for ln in case["lines"]:
-            if ln["t"] == "H":
-                ps = [posof.get(x[0], 1) for x in ln["vars"]] or [1]
-                f.write(f"H\t1\t{min(ps)}\t{max(ps) + 1}\t{ln['id']}\n")
-            else:
-                f.write(f"R\t1\t5\t9\t{ln['id']}\n")
-        for ln in case["lines"]:
-            if ln["t"] == "H":
-                for vid, al in ln["vars"]:
-                    q = posof.get(vid, 1)
-                    f.write(f"V\t{ln['id']}\t{q}\t{q + 1}\t{vid}\t{al}\n")
+        if layout == "hv":
+            for ln in case["lines"]:
+                f.write(hline(ln))
+                f.writelines(vlines(ln))
+        elif layout == "vfirst":
+            f.writelines(merged)
+            f.writelines(hline(ln) for ln in case["lines"])
+        else:
+            f.writelines(hline(ln) for ln in case["lines"])
+            f.writelines(merged if layout == "interleaved" else grouped)
     order = None
     if case.get("hapfmt") == "gz":
         import gzip
@@ -293,14 +383,30 @@ class LD(Relation):
     anchors = [("haptools/ld.py", "calc_ld"), ("haptools/ld.py", "pearson_corr_ld")]
 
     def generate(self, rng, n, tier):
-        return [gen_case(rng) for _ in range(n)]
+        out = []
+        while len(out) < n:
+            c = gen_case(rng)
+            out.append(c)
+            nhap = len([l for l in c["lines"] if l["t"] == "H"])
+            if c["kind"] == "wellformed" and nhap >= 2 and rng.random() < 0.08:
+                # every haplotype of this data set as the target in turn
+                out.extend(target_family(c))
+        return out[:n]
 
     def exhaustive(self, tier):
         # every target x the four modes on one small fixed data set
         rng = np.random.default_rng(16)
         base = gen_case(rng)
-        while base["kind"] != "wellformed" or len([l for l in base["lines"] if l["t"] == "H"]) < 2:
+        def fit(c):
+            hl = [l for l in c["lines"] if l["t"] == "H"]
+            return (c["kind"] == "wellformed" and len(hl) >= 2
+                    and any(vline_order(c, l) in ("reversed", "shuffled") and mixes_alleles(c, l) for l in hl))
+
+        while not fit(base):
             base = gen_case(rng)
+        base["posorder"] = "sorted"   # both formats are written from it
+        for v, q in zip(base["variants"], sorted(v["pos"] for v in base["variants"])):
+            v["pos"] = q
         out = []
         haps = [l["id"] for l in base["lines"] if l["t"] == "H"]
         vids = [v["id"] for v in base["variants"]]
@@ -309,7 +415,8 @@ class LD(Relation):
                 uni = vids if fg else haps
                 for ids in (None, uni[:1], uni[::-1]):
                     for fmt in ("vcf", "pgen"):
-                        out.append(dict(base, target=t, from_gts=fg, ids=ids, fmt=fmt, keep=None, kind="exhaustive"))
+                        out.append(dict(base, target=t, from_gts=fg, ids=ids, fmt=fmt, keep=None, kind="exhaustive",
+                                        chunk=None))
         return out
 
     def run_impl(self, case):
@@ -319,17 +426,19 @@ class LD(Relation):
             so = [f"S{i}" for i in range(case["n"])]
             main = _run(case["target"], gt, hp, sset, case["ids"], case["from_gts"], os.path.join(d, "out.txt"),
                         case.get("via", "api"), case.get("chunk"), so)
-            sym = None
-            if "ok" in main and main["ok"]:
-                b = main["ok"][case["swap"] % len(main["ok"])][0]
+            # LD(A,B) = LD(B,A): every listed item B becomes the target of a further run that lists the
+            # original target (a haplotype target is listed in .hap mode, a variant target with --from-gts)
+            sym = []
+            if "ok" in main:
                 hap_ids = [l["id"] for l in case["lines"] if l["t"] == "H"]
-                second = _run(b, gt, hp, sset, None, case["target"] not in hap_ids, os.path.join(d, "out2.txt"),
-                              case.get("via", "api"), case.get("chunk"), so)
-                if "ok" in second:
-                    hit = [r for r in second["ok"] if r[0] == case["target"]]
-                    sym = [b, {"ok": hit[0][1]} if len(hit) == 1 else {"err": 97}]
-                else:
-                    sym = [b, second]
+                for b in list(dict.fromkeys(r[0] for r in main["ok"])):
+                    second = _run(b, gt, hp, sset, None, case["target"] not in hap_ids,
+                                  os.path.join(d, f"out2_{len(sym)}.txt"), case.get("via", "api"), case.get("chunk"), so)
+                    if "ok" in second:
+                        hit = [r for r in second["ok"] if r[0] == case["target"]]
+                        sym.append([b, {"ok": hit[0][1]} if len(hit) == 1 else {"err": 97}])
+                    else:
+                        sym.append([b, second])
             return {"main": main, "sym": sym, "order": order}
         finally:
             shutil.rmtree(d, ignore_errors=True)
@@ -358,17 +467,17 @@ class LD(Relation):
             od = obs["order"]
             lines = [dict(byid[i], vars=od["vars"].get(i, [])) if byid[i]["t"] == "H" else byid[i] for i in od["lines"]]
         if not isinstance(obs, dict) or "main" not in obs:
-            main, sym = {"err": (obs or {}).get("kind", 99)}, None
+            main, sym = {"err": (obs or {}).get("kind", 99)}, []
         else:
-            main, sym = obs["main"], obs["sym"]
+            main, sym = obs["main"], obs["sym"] or []
         orow = lambda r: f"({it(r[0])}, {L.opt(r[1], L.z)})"
         mo = L.res(main, lambda rows: L.lst(rows, orow))
-        so = L.opt(sym, lambda s: f"({it(s[0])}, {L.res(s[1], lambda v: L.opt(v, L.z))})")
+        so = L.lst(sym, lambda s: f"({it(s[0])}, {L.res(s[1], lambda v: L.opt(v, L.z))})")
         return (f"(mkl {it(case['target'])} {L.lst(case['variants'], gv)} {L.lst(lines, hl)} {L.bl(keep)} "
                 f"{ids} {L.b(case['from_gts'])} {mo} {so})")
 
     def nontrivial(self, case, obs):
-        if case["kind"] not in ("wellformed", "exhaustive", "dup-ids") or not isinstance(obs, dict) or "ok" not in obs.get("main", {}):
+        if case["kind"] not in ("wellformed", "exhaustive", "dup-ids", "family") or not isinstance(obs, dict) or "ok" not in obs.get("main", {}):
             return False
         return any(r[1] is not None and abs(r[1]) != 1000 for r in obs["main"]["ok"])
 
@@ -378,6 +487,22 @@ class LD(Relation):
                f"mode=fromgts:{int(case['from_gts'])},ids:{int(case['ids'] is not None)}", f"fmt={case['fmt']}",
                f"subset={int(case['keep'] is not None)}", f"via={case.get('via', 'api')}",
                f"hap={case.get('hapfmt', 'plain')}"]
+        out.append(f"layout={case.get('layout', 'grouped')}")
+        out.append(f"positions={case.get('posorder', 'sorted')}")
+        ids_in_file_order = [v["id"] for v in case["variants"]] == sorted((v["id"] for v in case["variants"]), key=lambda x: (len(x), x))
+        out.append(f"variant-ids-in-file-order={int(ids_in_file_order)}")
+        hl = [l for l in case["lines"] if l["t"] == "H"]
+        for o in sorted({vline_order(case, l) for l in hl}):
+            out.append(f"vlines={o}")
+        if any(mixes_alleles(case, l) for l in hl):
+            out.append("hap-mixes-ref-alt")
+        tl = [l for l in hl if l["id"] == case["target"]]
+        if tl:
+            out.append(f"target-vlines={vline_order(case, tl[0])}")
+            if vline_order(case, tl[0]) in ("reversed", "shuffled") and mixes_alleles(case, tl[0]):
+                out.append("target-vlines-out-of-order+mixed-alleles")
+        if isinstance(obs, dict) and obs.get("sym"):
+            out.append(f"swapped-runs={min(len(obs['sym']), 4)}{'+' if len(obs['sym']) > 4 else ''}")
         if case.get("chunk"):
             out.append("pgen-chunked")
         if any(l["t"] == "R" for l in case["lines"]):
@@ -403,6 +528,25 @@ class LD(Relation):
         for j, ln in enumerate(case["lines"]):
             if ln["id"] != case["target"] and ln["id"] not in (case["ids"] or []):
                 yield dict(case, lines=case["lines"][:j] + case["lines"][j + 1:])
+        # is it about the order / layout of the V lines, the positions, the names?
+        if case.get("layout", "grouped") != "grouped":
+            yield dict(case, layout="grouped")
+        rk = _file_rank(case)
+        for j, ln in enumerate(case["lines"]):
+            if ln["t"] == "H":
+                sv = sorted(ln["vars"], key=lambda x: rk.get(x[0], -1))
+                if sv != ln["vars"]:
+                    yield dict(case, lines=case["lines"][:j] + [dict(ln, vars=sv)] + case["lines"][j + 1:])
+                if len(ln["vars"]) > 1:
+                    for k in range(len(ln["vars"])):
+                        yield dict(case, lines=case["lines"][:j] + [dict(ln, vars=ln["vars"][:k] + ln["vars"][k + 1:])]
+                                   + case["lines"][j + 1:])
+        if case.get("hapfmt") == "gz":
+            yield dict(case, hapfmt="plain")
+        if case.get("via") == "cli":
+            yield dict(case, via="api")
+        if case.get("chunk"):
+            yield dict(case, chunk=None)
         if case["ids"] and len(case["ids"]) > 1:
             for j in range(len(case["ids"])):
                 yield dict(case, ids=case["ids"][:j] + case["ids"][j + 1:])
@@ -426,6 +570,17 @@ class LD(Relation):
                 yield dict(case, target=t, from_gts=fg, ids=None)
                 uni = var_ids if fg else hap_ids
                 yield dict(case, target=t, from_gts=fg, ids=uni[: max(1, len(uni) // 2)])
+        # the V lines of every haplotype in another order / layout
+        for how in ("reversed", "shuffled"):
+            lines = []
+            for ln in case["lines"]:
+                if ln["t"] == "H":
+                    vs = list(ln["vars"])[::-1] if how == "reversed" else [ln["vars"][k] for k in rng.permutation(len(ln["vars"]))]
+                    ln = dict(ln, vars=vs)
+                lines.append(ln)
+            for lay in ("grouped", "interleaved"):
+                for t in hap_ids:
+                    yield dict(case, lines=lines, layout=lay, target=t, from_gts=bool(rng.random() < 0.5), ids=None)
 
     def signature(self, case, obs):
         hap_ids = [l["id"] for l in case["lines"] if l["t"] == "H"]
@@ -438,9 +593,10 @@ class LD(Relation):
             rows = [r[0] for r in m.get("ok", [])]
             if len(set(rows)) < len(rows):
                 return f"calc_ld lists an item twice (--id repeated) for a {kind} target with from_gts={case['from_gts']}"
-            if s and "err" in s[1] and s[1]["err"] != 97:
-                return (f"calc_ld raises {s[1].get('cls')} for a "
-                        f"{'haplotype' if s[0] in hap_ids else 'variant'} target with from_gts={kind != 'haplotype'}")
+            for s1 in s or []:
+                if "err" in s1[1] and s1[1]["err"] != 97:
+                    return (f"calc_ld raises {s1[1].get('cls')} for a "
+                            f"{'haplotype' if s1[0] in hap_ids else 'variant'} target with from_gts={kind != 'haplotype'}")
         return f"calc_ld listing or R wrong for a {kind} target with from_gts={case['from_gts']}"
 
 
@@ -449,9 +605,13 @@ RELATIONS = [LD()]
 LEVEL_TEXT = (
     "Coq theorems over all dosage vectors (Pearson statistic over exact rationals: symmetry, NaN iff constant, "
     "Cauchy-Schwarz r^2 <= 1) and over all genotype matrices / .hap sets / targets / modes for a Gallina model of "
-    "calc_ld (what is listed, that no mode raises); the model is tied to /repo on every run by evaluating inside Coq, "
-    "on generated inputs in all four modes for both genotype formats, model-vs-implementation agreement and the "
-    "property's finite checker (each printed R against the exact correlation of the dosages, listing, symmetry)."
+    "calc_ld (what is listed, that no mode raises, that every R is the correlation of the two dosages, that "
+    "R(A->B) = R(B->A) across any two runs, that a haplotype's dosage counts the strands carrying all of its alleles "
+    "and that neither it nor anything calc_ld reports depends on the order of the haplotype's V lines); the model is "
+    "tied to /repo on every run by evaluating inside Coq, on generated inputs in all four modes for both genotype "
+    "formats (V lines in any order and layout, every listed item swapped with the target in a further run), "
+    "model-vs-implementation agreement and the property's finite checker (each printed R against the exact "
+    "correlation of the dosages, listing, symmetry for every listed item)."
 )
 LEVEL_NOTE = (
     "Partial: the floating-point evaluation of numpy.corrcoef and the '.3f' printing are not verified; each printed R "
